@@ -11,6 +11,7 @@ package main
 import (
 	"context"
 	"encoding/json"
+	"errors"
 	"flag"
 	"fmt"
 	"hash/crc32"
@@ -40,6 +41,8 @@ type opIn struct {
 	Aliases [][2]int   `json:"aliases,omitempty"` // (alias, data id)
 	Results [][2]int   `json:"results,omitempty"` // (seq or 0 = "oldest outstanding"/relative, code)
 	RelSeq  bool       `json:"relseq,omitempty"`  // results refer to outstanding chunks by position
+	N       int        `json:"n,omitempty"`       // write: N points of Len zero bytes each (instead of Lens; big-backlog histories)
+	Len     int        `json:"len,omitempty"`
 }
 
 type caseIn struct {
@@ -50,6 +53,7 @@ type caseIn struct {
 	Ops      []opIn  `json:"ops"`
 	Writers  int     `json:"writers,omitempty"` // >0: concurrent mode
 	RT       *rtIn   `json:"rt,omitempty"`      // real-time interval case (rt.go); everything above is unused then
+	StoreFail []int  `json:"store_fail,omitempty"` // the k-th call of sentStorage.Store (1-based) returns an error, once each
 }
 
 // ---------------------------------------------------------------- flush policy and storage wrappers
@@ -90,9 +94,24 @@ func realPolicy(c *caseIn) iscp.FlushPolicy {
 type sigStorage struct {
 	iscp.VerifSentStorage
 	stored chan uint32
+	mu     sync.Mutex
+	calls  int
+	failAt map[int]bool
+	failed chan uint32 // sequence numbers of the Store calls that were made to fail
 }
 
 func (s *sigStorage) Store(ctx context.Context, id uuid.UUID, seq uint32, d iscp.DataPointGroups) error {
+	s.mu.Lock()
+	s.calls++
+	fail := s.failAt[s.calls]
+	s.mu.Unlock()
+	if fail {
+		select {
+		case s.failed <- seq:
+		default:
+		}
+		return errors.New("verif: sent storage refuses this Store")
+	}
 	err := s.VerifSentStorage.Store(ctx, id, seq, d)
 	select {
 	case s.stored <- seq:
@@ -108,12 +127,48 @@ type ptT struct{ el, dig, ln uint64 }
 func ptOf(p *message.DataPoint) ptT {
 	return ptT{uint64(p.ElapsedTime), uint64(crc32.ChecksumIEEE(p.Payload)), uint64(len(p.Payload))}
 }
+// ptsTerm prints a point list; a run of >= 6 points with consecutive elapsed times and the same
+// digest and length is printed as (prun first n dig len), literals hold <= 150 elements, the
+// segments are joined by ++ (big-backlog histories stay small as Coq terms).
 func ptsTerm(ps []ptT) string {
-	var s []string
-	for _, p := range ps {
-		s = append(s, fmt.Sprintf("(%d,%d,%d)", p.el, p.dig, p.ln))
+	var segs []string
+	var lit []string
+	flushLit := func() {
+		for len(lit) > 0 {
+			k := len(lit)
+			if k > 150 {
+				k = 150
+			}
+			segs = append(segs, coqfmt.List(lit[:k]))
+			lit = lit[k:]
+		}
 	}
-	return coqfmt.List(s)
+	for i := 0; i < len(ps); {
+		j := i + 1
+		for j < len(ps) && ps[j].el == ps[j-1].el+1 && ps[j].dig == ps[i].dig && ps[j].ln == ps[i].ln {
+			j++
+		}
+		if j-i >= 6 {
+			flushLit()
+			segs = append(segs, fmt.Sprintf("prun %d %d %d %d", ps[i].el, j-i, ps[i].dig, ps[i].ln))
+		} else {
+			for k := i; k < j; k++ {
+				lit = append(lit, fmt.Sprintf("(%d,%d,%d)", ps[k].el, ps[k].dig, ps[k].ln))
+			}
+		}
+		i = j
+	}
+	flushLit()
+	switch len(segs) {
+	case 0:
+		return "[]"
+	case 1:
+		if strings.HasPrefix(segs[0], "[") {
+			return segs[0]
+		}
+		return "(" + segs[0] + ")"
+	}
+	return "(" + strings.Join(segs, " ++ ") + ")"
 }
 
 type grp struct {
@@ -245,6 +300,7 @@ type result struct {
 	nchunks  int
 	aliasUse bool
 	nids     int
+	sf       string // the whole case term when Store failures were injected
 }
 
 func call(name string, f func() error) (err error, blocked bool) {
@@ -336,7 +392,12 @@ func runCase(c *caseIn, r *rng.R) (res result) {
 		}
 		usePol = cfg.FlushPolicy
 	}
-	st := &sigStorage{VerifSentStorage: iscp.VerifNewInmemSentStorageNoPayload(), stored: make(chan uint32, 4096)}
+	st := &sigStorage{VerifSentStorage: iscp.VerifNewInmemSentStorageNoPayload(), stored: make(chan uint32, 4096),
+		failAt: map[int]bool{}, failed: make(chan uint32, 64)}
+	for _, k := range c.StoreFail {
+		st.failAt[k] = true
+	}
+	var failedSeqs []int
 	var conn *iscp.Conn
 	err, blocked := call("connect", func() error {
 		var err error
@@ -423,6 +484,8 @@ func runCase(c *caseIn, r *rng.R) (res result) {
 					lost = fmt.Sprintf("chunk %d was cut (stored) but never reached the broker", s)
 				}
 				outstanding[s] = true
+			case s := <-st.failed:
+				failedSeqs = append(failedSeqs, int(s))
 			default:
 				return
 			}
@@ -435,6 +498,9 @@ func runCase(c *caseIn, r *rng.R) (res result) {
 				lost = fmt.Sprintf("chunk %d was cut (stored) but never reached the broker", s)
 			}
 			outstanding[s] = true
+			return true
+		case s := <-st.failed:
+			failedSeqs = append(failedSeqs, int(s))
 			return true
 		case <-time.After(wd):
 			return false
@@ -635,7 +701,11 @@ func runCase(c *caseIn, r *rng.R) (res result) {
 	closed := false
 	// all points of a case live in one backing array and every write passes a window of it with
 	// spare capacity, as a caller slicing one batch would
-	backing := make([]*message.DataPoint, 0, 1024)
+	npts := 1024
+	for _, op := range c.Ops {
+		npts += len(op.Lens) + op.N
+	}
+	backing := make([]*message.DataPoint, 0, npts)
 	for _, op := range c.Ops {
 		if lost != "" {
 			return bad(lost)
@@ -649,6 +719,15 @@ func runCase(c *caseIn, r *rng.R) (res result) {
 				p := &message.DataPoint{ElapsedTime: time.Duration(elapsed), Payload: r.Bytes(ln)}
 				backing = append(backing, p)
 				pts = append(pts, ptOf(p))
+			}
+			if op.N > 0 {
+				zero := make([]byte, op.Len) // one shared all-zero payload: same digest for the whole run
+				pt0 := ptOf(&message.DataPoint{Payload: zero})
+				for k := 0; k < op.N; k++ {
+					elapsed++
+					backing = append(backing, &message.DataPoint{ElapsedTime: time.Duration(elapsed), Payload: zero})
+					pts = append(pts, ptT{elapsed, pt0.dig, pt0.ln})
+				}
 			}
 			dps := backing[start:len(backing)]
 			e.mu.Lock()
@@ -796,7 +875,7 @@ func runCase(c *caseIn, r *rng.R) (res result) {
 	broker.WaitFor(500*time.Millisecond, func() bool {
 		e.mu.Lock()
 		defer e.mu.Unlock()
-		return len(e.sendHook) >= len(e.chunks) && len(e.ackHook) >= acked
+		return len(e.sendHook) >= len(e.chunks)+len(failedSeqs) && len(e.ackHook) >= acked
 	})
 	time.Sleep(2 * time.Millisecond)
 
@@ -849,9 +928,22 @@ func runCase(c *caseIn, r *rng.R) (res result) {
 		"intervalorsize": fmt.Sprintf("(PIntervalOrSize %d)", c.Thresh), "immediate": "PImmediate"}[c.Policy]
 	res.term = fmt.Sprintf("mkUpCase %s %s %s %s %s %s %s %s %s %s "+coqfmt.Bool(sequential), polT, coqfmt.List(rev0T), coqfmt.List(opsT),
 		coqfmt.List(retsT), coqfmt.List(snapsT), coqfmt.List(chunksT), coqfmt.List(shT), coqfmt.List(ahT), coqfmt.List(clT), coqfmt.Bool(after))
+	if len(c.StoreFail) > 0 {
+		sort.Ints(failedSeqs)
+		var fin, fobs []string
+		ks := append([]int(nil), c.StoreFail...)
+		sort.Ints(ks)
+		for _, k := range ks {
+			fin = append(fin, fmt.Sprint(k))
+		}
+		for _, k := range failedSeqs {
+			fobs = append(fobs, fmt.Sprint(k))
+		}
+		res.sf = fmt.Sprintf("SF (mkSfCase %s %s (%s))", coqfmt.List(fin), coqfmt.List(fobs), res.term)
+	}
 	res.nchunks = len(seqs)
 	res.nids = len(idset)
-	res.observed = map[string]interface{}{"chunks": len(seqs), "close": e.closeReq, "sendhooks": len(e.sendHook), "ackhooks": len(e.ackHook), "chunk_after_close": after}
+	res.observed = map[string]interface{}{"store_failed_seqs": failedSeqs, "chunks": len(seqs), "close": e.closeReq, "sendhooks": len(e.sendHook), "ackhooks": len(e.ackHook), "chunk_after_close": after}
 	return
 }
 
@@ -979,6 +1071,70 @@ func genExhaustive(n int, add func(*caseIn, string)) {
 	}
 }
 
+// sequential histories with failing Store calls: the k-th cut's Store returns an error (once each)
+func genStoreFail(r *rng.R) *caseIn {
+	c := genCase(r)
+	ks := []int{1 + r.Intn(3)}
+	if r.Chance(1, 3) {
+		ks = append(ks, ks[0]+1+r.Intn(2))
+	}
+	c.StoreFail = ks
+	// make sure there is something after the failure: more writes, a Flush and a Close
+	tail := []opIn{{Op: "write", ID: 1, Lens: []int{c.Thresh + 1}}, {Op: "flush"}, {Op: "write", ID: 2, Lens: []int{1, 2}}, {Op: "flush"}, {Op: "close"}}
+	var ops []opIn
+	for _, op := range c.Ops {
+		if op.Op == "close" {
+			break
+		}
+		ops = append(ops, op)
+	}
+	c.Ops = append(ops, tail...)
+	return c
+}
+
+// big-backlog histories: 5000-9000 points buffered without a cut under a policy that must not cut
+func genBacklog(r *rng.R, allShapes bool) []*caseIn {
+	type pc struct {
+		pol    string
+		thresh int
+		ln     int
+	}
+	pcs := []pc{{"none", 0, 0}, {"none", 0, 1}, {"size", 20000, 1}, {"size", 64, 0}, {"interval", 0, 1}, {"intervalorsize", 20000, 1}}
+	var out []*caseIn
+	for xi, x := range pcs {
+		for shape := 0; shape < 3; shape++ {
+			if shape == 1 && !allShapes && xi != 0 && xi != 2 {
+				continue // the many-small-writes shape is the expensive one to judge (a snapshot per write)
+			}
+			c := &caseIn{Policy: x.pol, Thresh: x.thresh, QoS: r.Intn(3)}
+			switch shape {
+			case 0: // one huge write, then a small one
+				c.Ops = append(c.Ops, opIn{Op: "write", ID: 1, N: 5000 + r.Intn(4000), Len: x.ln})
+				c.Ops = append(c.Ops, opIn{Op: "write", ID: 2, N: 7, Len: x.ln})
+			case 1: // many small writes to one id
+				w, k := 110+r.Intn(40), 40+r.Intn(10)
+				for i := 0; i < w; i++ {
+					c.Ops = append(c.Ops, opIn{Op: "write", ID: 1, N: k, Len: x.ln})
+				}
+			case 2: // a few huge writes of 5000 points to two ids (5000 one-byte points stay below 20000 bytes... two do not)
+				c.Ops = append(c.Ops, opIn{Op: "write", ID: 1, N: 5000, Len: x.ln})
+				if x.thresh == 0 || x.ln == 0 {
+					c.Ops = append(c.Ops, opIn{Op: "write", ID: 2, N: 5000, Len: x.ln})
+				} else {
+					c.Ops = append(c.Ops, opIn{Op: "write", ID: 2, N: 4000, Len: x.ln})
+				}
+			}
+			if x.pol == "interval" || x.pol == "intervalorsize" {
+				c.Ops = append(c.Ops, opIn{Op: "tick"})
+				c.Ops = append(c.Ops, opIn{Op: "write", ID: 1, N: 4200, Len: x.ln})
+			}
+			c.Ops = append(c.Ops, opIn{Op: "flush"}, opIn{Op: "write", ID: 1, Lens: []int{1}}, opIn{Op: "close"})
+			out = append(out, c)
+		}
+	}
+	return out
+}
+
 func main() {
 	seed := flag.Uint64("seed", 1, "seed")
 	tier := flag.String("tier", "quick", "quick|thorough")
@@ -1034,6 +1190,31 @@ func main() {
 		for i := 0; i < nconc; i++ {
 			add(genConcurrent(r.Fork()), "concurrent")
 		}
+		// Store failures: every op sequence of length 2 per policy with the 1st / 2nd Store failing, and random ones
+		for _, k := range []int{1, 2} {
+			k := k
+			genExhaustive(2, func(c *caseIn, kind string) {
+				c.StoreFail = []int{k}
+				c.Ops = append(c.Ops[:len(c.Ops)-1], opIn{Op: "write", ID: 2, Lens: []int{0, 6}}, opIn{Op: "flush"}, opIn{Op: "write", ID: 1, Lens: []int{3}}, opIn{Op: "flush"}, opIn{Op: "close"})
+				add(c, "storefail")
+			})
+		}
+		nsf := 250
+		if *tier == "thorough" {
+			nsf = 2500
+		}
+		for i := 0; i < nsf; i++ {
+			add(genStoreFail(r.Fork()), "storefail")
+		}
+		nbl := 1
+		if *tier == "thorough" {
+			nbl = 4
+		}
+		for i := 0; i < nbl; i++ {
+			for _, c := range genBacklog(r.Fork(), *tier == "thorough") {
+				add(c, "backlog")
+			}
+		}
 		// real-time family last: it forks the generator after every event-history case was drawn
 		for _, c := range genRT(r.Fork(), *tier) {
 			add(&caseIn{Policy: "rt-" + c.Mode, RT: c}, "rt-interval")
@@ -1060,6 +1241,8 @@ func main() {
 			}
 			if res.term == "" {
 				cs.Term = "UC (mkUpCase PNone [] [] [] [] [] [] [] [] false false)"
+			} else if res.sf != "" {
+				cs.Term = res.sf
 			}
 			mu.Lock()
 			results[i] = cs
@@ -1131,6 +1314,7 @@ func main() {
 		w.Count(fmt.Sprintf("ops:%d", len(jobs[i].c.Ops)/4*4))
 	}
 	rule := "exhaustive: every op sequence of fixed length over {write id1, write id2 (0-byte and 6-byte point), zero-point write, flush, ack oldest outstanding + alias, tick} per policy, then close; random: 3-16 ops over 1-5 data ids, 0-3 points per write with payload lengths straddling the size threshold, policies none/interval/size/interval-or-size/immediate, QoS x3, ack styles none/eager/reordered/duplicated+failure codes, aliases handed out in the open response and mid-stream, ops after close. non-trivial = >=2 chunks, >=2 data ids and at least one group transmitted in alias form; distinct = distinct Coq case terms"
+	rule += "; storefail: the same histories with the k-th sentStorage.Store call (k in 1..5, one or two of them) returning an error once, followed by more writes, Flush and Close, every policy; backlog: 4200-9000 zero/one-byte points buffered without a cut under none, size (threshold never exceeded), interval-only between ticks, as one huge write, 110-150 writes of 40-50 points, or two huge writes to two ids"
 	rule += "; rt-interval (real clock, no policy wrapper): 1-3 streams on one connection opened with no flush-policy option (the library's shared default object, 100 ms / 10000 B), IntervalOnly(d) or IntervalOrBufferSize(d,64), d in {20,50} ms, private or one shared policy object; a neighbour cuts by size every 2-5 ms, is closed, or all streams resume after a link cut; 2 small writes per stream under test at random phases; each must reach the broker within interval+slack ms (a miss is re-run alone 3 times); non-trivial = >=2 streams with a neighbour action and no miss"
 	extra := map[string]interface{}{"rt_wall_ms": rtWall.Milliseconds(), "rt_first_pass_misses_retried": rtRetried}
 	if err := w.Flush(*seed, *tier, rule, false, extra); err != nil {
